@@ -251,6 +251,16 @@ func valSweepVal(t asetypes.DataType, i uint64) (time.Time, int64, bool) {
 	return time.Time{}, 0, false
 }
 
+// valShowSafe renders a value, mapping a panic of the rendering (a corrupted decimal) to a marker
+func valShowSafe(v interface{}) (out string) {
+	defer func() {
+		if recover() != nil {
+			out = "unprintable"
+		}
+	}()
+	return valShow(v)
+}
+
 func valImpl(f []string) string {
 	switch {
 	case len(f) == 4 && f[1] == "dec":
@@ -295,7 +305,18 @@ func valImpl(f []string) string {
 		if !ok || !ok1 || !ok2 || l > valMaxLen {
 			return "bad-op"
 		}
+		shownBefore := valShowSafe(v)
 		bs, st := valBytes(t, v, l)
+		// object reuse: encoding must not change the value it encodes (the same Go value is bound to several
+		// parameters, a statement is executed twice with the same argument) and must be repeatable
+		if st == "ok" {
+			if after := valShowSafe(v); after != shownBefore {
+				return "enc-mutates-value"
+			}
+			if bs2, st2 := valBytes(t, v, l); st2 != "ok" || hx(bs2) != hx(bs) {
+				return "enc-not-repeatable"
+			}
+		}
 		if f[1] == "enc" {
 			if st != "ok" {
 				return st
@@ -594,6 +615,9 @@ func valOracle(line, out string) string {
 		}
 		return ""
 	case "enc":
+		if out == "enc-mutates-value" || out == "enc-not-repeatable" {
+			return "encoding a value leaves the value as it was and gives the same bytes every time"
+		}
 		if f[4] == "null" && out != "ok -" {
 			return "NULL encodes to zero length"
 		}
@@ -605,6 +629,9 @@ func valOracle(line, out string) string {
 		}
 		return ""
 	case "rt":
+		if out == "enc-mutates-value" || out == "enc-not-repeatable" {
+			return "encoding a value leaves the value as it was and gives the same bytes every time"
+		}
 		l, _ := valInt(f[3], 64)
 		if f[4] == "null" {
 			if t.ByteSize() == -1 && out != "ok null" && out != "ok decnull" {
